@@ -348,19 +348,12 @@ theorem parseCsf_csfBytes (version : Nat) (cmds : List CsfCmd) (h : CsfWF versio
 
 /-! ### XMCD header -/
 theorem xmcdByte0_eq (n : Nat) : natOf (HabFuns.xmcdHdrByte0 (n : Int)) = n % 256 := by
-  unfold HabFuns.xmcdHdrByte0 natOf
-  simp only [pyAnd_nat]
-  have : (255 : Int).toNat = 2 ^ 8 - 1 := by decide
-  rw [this, Nat.and_two_pow_sub_one_eq_mod]
-  omega
+  unfold HabFuns.xmcdHdrByte0
+  py_bits
 
 theorem xmcdByte1_eq (t n : Nat) : natOf (HabFuns.xmcdHdrByte1 (t : Int) (n : Int)) = t * 16 + n / 256 := by
-  unfold HabFuns.xmcdHdrByte1 natOf
-  simp only [pyShl_nat, pyShr_nat]
-  have h4 : (4 : Int).toNat = 4 := by decide
-  have h8 : (8 : Int).toNat = 8 := by decide
-  rw [h4, h8, Nat.shiftLeft_eq, Nat.shiftRight_eq_div_pow]
-  omega
+  unfold HabFuns.xmcdHdrByte1
+  py_bits
 
 theorem xmcdByte2_eq (i j : Nat) (hi : i ≤ 1) (hj : j < 16) :
     natOf (HabFuns.xmcdHdrByte2 (i : Int) (j : Int)) = i * 16 + j := by
